@@ -5,7 +5,7 @@
 //! A difference here is a broken correspondence (`Report::corr_break`): the property itself is
 //! judged by the round-trip checks of c07.rs / c11.rs.
 use crate::common::*;
-use moc::deser::ascii::{from_ascii_ivoa, moc2d_from_ascii_ivoa, AsciiError};
+use moc::deser::ascii::{from_ascii_ivoa, from_ascii_stream, moc2d_from_ascii_ivoa, AsciiError};
 use moc::elem::cellcellrange::CellOrCellRange;
 use moc::idx::Idx;
 use moc::moc::{CellOrCellRangeMOCIntoIterator, CellOrCellRangeMOCIterator, HasMaxDepth, RangeMOCIntoIterator, RangeMOCIterator};
@@ -32,6 +32,10 @@ pub fn err_kind(e: &AsciiError) -> String {
     "IndexIsNotValid" => "Index",
     "NotValid" => "NotValid",
     "ElemNotFound" => "ElemNotFound",
+    "EmptyReader" => "EmptyReader",
+    "QtyExpectedAtFirstLine" => "QtyExpectedAtFirstLine",
+    "NoData" => "NoData",
+    "DepthExpectedAtSecondLine" => "DepthExpectedAtSecondLine",
     other => return format!("Other({})", other),
   }
   .to_string()
@@ -236,4 +240,53 @@ pub fn compare_reader_2d(rep: &mut Report, orc: &mut Oracle, s: &str, origin: &s
     return false;
   }
   true
+}
+
+/// what the implementation's streaming reader makes of a document (elements in file order)
+pub fn impl_read_stream<T: Idx, Q: MocQty<T>>(s: &str) -> String {
+  let b = s.as_bytes().to_vec();
+  let r = catch(move || match from_ascii_stream::<T, Q, _>(std::io::Cursor::new(b)) {
+    Ok(rd) => {
+      let d = rd.depth_max();
+      format!("OK {} {}", d, elems_str(rd))
+    }
+    Err(e) => format!("ERR {}", err_kind(&e)),
+  });
+  match r {
+    Ok(x) => x,
+    Err(p) => p,
+  }
+}
+
+pub fn compare_reader_stream<T: Idx, Q: MocQty<T>>(rep: &mut Report, orc: &mut Oracle, qc: &str, w: u8, s: &str, origin: &str) -> bool {
+  rep.evaluations += 1;
+  let model = orc.ask(&format!("ASSR {} {} {}", qc, w, hex(s.as_bytes())));
+  let got = impl_read_stream::<T, Q>(s);
+  rep.count(&format!("ascii-stream-reader:{}:{}", origin, if model.starts_with("OK") { "accepted".to_string() } else { model.clone() }));
+  if got != model {
+    rep.corr_break(
+      "from_ascii_stream differs from the character-level model of the reader",
+      &format!("ASSR {} {} {} # document={:?} origin={}", qc, w, hex(s.as_bytes()), s, origin),
+      &got,
+      &model,
+      "src/deser/ascii.rs from_ascii_stream == Model/AsciiCodec.v from_ascii_stream (C07_ascii_stream_roundtrip)",
+    );
+    return false;
+  }
+  true
+}
+
+pub fn crafted_stream(name: &str, w: u8, md: u8, ncells_md: u64) -> Vec<String> {
+  let tmax: u128 = (1u128 << w) - 1;
+  let mut v: Vec<String> = vec![
+    "".to_string(), "\n".to_string(), format!("qty={}", name), format!("qty={}\n", name), format!("qty={}\ndepth=3", name), format!("qty={}\ndepth=3\n", name),
+    format!(" qty = {} \r\n depth = 3 \r\n 3/1 \r\n\r\n 2/0-2\n1/1+2\n", name), format!("qty={}\ndepth=+3\n+1/+2\n1/+1-+2\n1/1++1\n", name),
+    format!("QTY={}\ndepth=3\n", name), format!("qty=X{}\ndepth=3\n", name), format!("qty={}\nDepth=3\n", name), format!("qty={}\ndepth=\n", name),
+    format!("qty={}\ndepth=256\n", name), format!("qty={}\ndepth={}\n", name, md as u32 + 1), format!("qty={}\ndepth={}\n{}/{}\n{}/{}\n{}/0-{}\n{}/0-{}\n{}/1+{}\n{}/0+{}\n", name, md, md, ncells_md - 1, md, ncells_md, md, ncells_md, md, ncells_md as u128 + 1, md, ncells_md - 1, md, ncells_md as u128 + 1),
+    format!("qty={}\ndepth=1\n1/5-5\n1/5-4\n1/5+0\n1/5-6-7\n1/5+1+1\n1/5-6+1\n1/5+1-7\n1/-5\n1/5-\n1/+\n1/\n/1\n1\n\n2/1\n300/1\n1/1 2\n1/ 1\n 1 / 1 \n1/0x1\n", name),
+    format!("qty={}\ndepth=0\n0/{}\n0/{}\n0/0-{}\n0/1+{}\n0/{}+{}\n", name, tmax, tmax + 1, tmax, tmax, tmax, tmax),
+    format!("qty={}=x\ndepth=1\n", name), format!("qty {}\ndepth=1\n", name), format!("qty={}\ndepth=1=2\n", name), format!("qty={}\ndepth=1\n0/1\n0/0\n0/1\n", name),
+  ];
+  v.push(format!("qty={}\ndepth={}\n", name, md));
+  v
 }
